@@ -385,3 +385,17 @@ func HarnessC14f() {
 	m := NewInMemory()
 	verifAssert("C14.inmemory-defaults", m.branchFactor == 16 && m.growAfterSize == 16 && m.shrinkBelowSize == 1 && m.height == 0 && m.size == 0)
 }
+
+// ---- C14h: the length prefix is the unsigned LEB128 varint of the published format, for every
+// length (the node-level harnesses only ever write lengths 0..8), and decodeLength is its inverse ----
+
+func HarnessC14h() {
+	n := verifNondetU64("n")
+	verifAssume(n < 1<<31)
+	got := appendLength(nil, int(n))
+	want := refPutUvarint(nil, n)
+	verifAssert("C14.length-prefix-is-uvarint", verifStrEq(string(got), string(want)))
+	var back int
+	rest, err := decodeLength(append(append([]byte{}, got...), 0xAA), &back)
+	verifAssert("C14.length-prefix-decodes", err == nil && uint64(back) == n && len(rest) == 1)
+}
